@@ -551,7 +551,9 @@ func (s *state) addConnHandler(
 	h := sha256.New()
 
 	fds := make(map[string]*descriptorpb.FileDescriptorProto)
+	services := make(map[protoreflect.FullName]bool) // services the connection serves
 	for _, svc := range r.GetListServicesResponse().GetService() {
+		services[protoreflect.FullName(svc.GetName())] = true
 		if err := stream.Send(&rpb.ServerReflectionRequest{
 			MessageRequest: &rpb.ServerReflectionRequest_FileContainingSymbol{
 				FileContainingSymbol: svc.GetName(),
@@ -604,7 +606,7 @@ func (s *state) addConnHandler(
 			return err
 		}
 
-		hs, err := s.processFile(opts, cc, file)
+		hs, err := s.processFile(opts, cc, file, services)
 		if err != nil {
 			return err
 		}
@@ -766,12 +768,15 @@ func createConnHandler(
 	}
 }
 
-func (s *state) processFile(opts muxOptions, cc *grpc.ClientConn, fd protoreflect.FileDescriptor) ([]*handler, error) {
+func (s *state) processFile(opts muxOptions, cc *grpc.ClientConn, fd protoreflect.FileDescriptor, services map[protoreflect.FullName]bool) ([]*handler, error) {
 	var handlers []*handler
 
 	sds := fd.Services()
 	for i := 0; i < sds.Len(); i++ {
 		sd := sds.Get(i)
+		if !services[sd.FullName()] {
+			continue // declared in the same file but not served by this connection
+		}
 
 		mds := sd.Methods()
 		for j := 0; j < mds.Len(); j++ {
